@@ -556,6 +556,10 @@ func (x *Exec) doIndexAddr(st *State, in *ssa.IndexAddr) Value {
 			x.oblige(st, "index", x.instrLabel(in, "index"), mkAnd(mkCmp("<=", mkInt(0), idx), mkCmp("<", idx, s.Len)), "slice index within [0,len)", in.Pos())
 		}
 		x.assume(mkAnd(mkCmp("<=", mkInt(0), idx), mkCmp("<", idx, s.Len)))
+		if _, isStruct := isStructType(xt.Elem()); isStruct {
+			// struct elements live at derived references
+			return &PtrV{Kind: PRef, Ref: x.elemRef(st, xt.Elem(), s.Arr, mkAdd(s.Off, idx)), Elem: xt.Elem()}
+		}
 		return &PtrV{Kind: PElem, Ref: s.Arr, Idx: mkAdd(s.Off, idx), Elem: xt.Elem()}
 	case *types.Pointer: // pointer to array
 		at := xt.Elem().Underlying().(*types.Array)
@@ -651,6 +655,7 @@ func (x *Exec) bytesContent(st *State, m memView, s *SliceV) *Term {
 	return mkSelect(h, s.Arr)
 }
 
+var ufSRune = &UF{"srune", []Sort{SStr, SInt}, SInt}
 var ufStrOfBytes = &UF{"str_of_bytes", []Sort{arrSort(SInt, SInt), SInt, SInt}, SStr}
 
 func (x *Exec) doConvert(st *State, in *ssa.Convert) Value {
@@ -709,6 +714,12 @@ func (x *Exec) doConvert(st *State, in *ssa.Convert) Value {
 			} else {
 				x.assume(mkCmp("<=", ln, ufApp(ufSlen, s)))
 				x.assume(mkImplies(mkCmp(">", ufApp(ufSlen, s), mkInt(0)), mkCmp(">", ln, mkInt(0))))
+				// []rune(s): element i is the i-th rune of s
+				h := st.getHeap(elemHeapName(sl.Elem(), ""), arrSort(SInt, arrSort(SInt, SInt)))
+				iq := mkVar("i!rn", SInt)
+				x.assume(mkForall([]*Term{iq}, mkImplies(mkAnd(mkCmp("<=", mkInt(0), iq), mkCmp("<", iq, ln)),
+					mkEq(mkSelect(mkSelect(h, arr), iq), ufApp(ufSRune, s, iq)))))
+				x.assume(mkImplies(mkCmp(">", ln, mkInt(0)), mkEq(mkSelect(mkSelect(h, arr), mkInt(0)), ufApp(ufSRune, s, mkInt(0)))))
 			}
 			return res
 		}
